@@ -129,6 +129,7 @@ def rfind (s : List Char) (sep : Char) : Option Nat :=
 are computed. -/
 def bechDecodeRaw (U : CaseOracle) (k : BechKind) (s : List Char) (mixedNonAscii : Bool := false) :
     R (List Char × List Nat) := do
+  if s.any (fun c => c.toNat ≥ 128) then throw .value     -- `str.isascii()` guard (non-ASCII text is refused before lower-casing)
   if (s.any U.isLower && s.any U.isUpper) || mixedNonAscii then throw .value
   let s := s.flatMap U.lower
   let sepPos ← match rfind s k.sep with
